@@ -10,6 +10,8 @@ GENS = [
     (4, dict(bad_rate=0.4, inplace_rate=0.6, fail_rate=0.3)),
     (2, dict(bad_rate=0.4, inplace_rate=0.0, fail_rate=0.3)),
     (1, dict(bad_rate=0.4, inplace_rate=0.5, fail_rate=0.3, flavour="frozen")),
+    # a plain (undecorated) subclass overriding defaults by class attributes
+    (1, dict(bad_rate=0.4, inplace_rate=0.6, fail_rate=0.3, flavour="plain")),
     # Union[int, str] and Optional[spec] attributes
     (1, dict(bad_rate=0.4, inplace_rate=0.6, fail_rate=0.3, flavour="wide")),
     # nested spec values reached through update_/transform_<attr> and the element helpers with
